@@ -33,8 +33,7 @@ from pyiron_workflow.nodes.standard import UserInput as _UserInput
 
 PROP = "C18"
 IMPORTS = "Base Inject"
-RULE = ("1-3 user nodes (UserInput / two-output function node / single-output MACRO node (a composite; node[<node or "
-        "channel>] is not written on it: the child lookup iterates the key and never returns); values from a pool of None, bools, ints, floats, "
+RULE = ("1-3 user nodes (UserInput / two-output function node / single-output MACRO node (a composite); values from a pool of None, bools, ints, floats, "
         "strings, lists, tuples, sets, dicts, slices; already run or not), inside a Workflow (75%) or parentless, "
         "and a program of 2-8 written operations over all 30 entry points + channel-containing slices + "
         "unsupported reflected operators: receivers are channels, single-output nodes, the two-output node "
@@ -218,12 +217,10 @@ CHILD_ACCESS = ("getattr", "getitem")
 
 
 def _child_access(key):
-    """what a composite's child lookup does with a key that names no child (dict + difflib only)"""
-    import difflib
+    """what a composite's child lookup does with a key that names no child (plain dict semantics)"""
     try:
         {}[key]
     except KeyError:
-        difflib.get_close_matches(key, [])
         raise AttributeError(key) from None
 
 
@@ -376,15 +373,6 @@ def near_identical(rng, users, step, theme):
     return s
 
 
-def _mac_child_access(users, s):
-    # composite[<node or channel>] is not generated: the child lookup hands the key to difflib, which iterates it,
-    # and iterating a single-output node injects GetItem nodes for 0, 1, 2, ... without end
-    if s["k"] == "op" and s["e"] == "getitem" and s["recv"][0] == "node" and users[s["recv"][1]]["kind"] == "mac" \
-            and s["others"][0][0] != "raw":
-        s = dict(s, recv=["chan", s["recv"][1], 0])
-    return s
-
-
 def gen_case(rng):
     users, theme = gen_users(rng)
     steps = []
@@ -407,7 +395,7 @@ def gen_case(rng):
                 if exp[0] == "ok" or rng.random() < 0.2:
                     break
                 s = gen_step(rng, users, len(steps), theme)
-        steps.append(_mac_child_access(users, s))
+        steps.append(s)
     return {"parent": rng.random() < 0.75, "users": users, "steps": steps}
 
 
@@ -596,6 +584,32 @@ def _apply(step, recv, others):
     return SYNTAX[e](recv, *others)
 
 
+class hang(Exception):
+    """writing an operation did not return within the time limit"""
+
+
+class _alarm:
+    def __init__(self, seconds):
+        self.seconds = seconds
+
+    def __enter__(self):
+        import signal
+        import threading
+        self.on = threading.current_thread() is threading.main_thread()
+        if self.on:
+            def fire(*a):
+                raise hang()
+            self.old = signal.signal(signal.SIGALRM, fire)
+            signal.setitimer(signal.ITIMER_REAL, self.seconds)
+
+    def __exit__(self, *a):
+        import signal
+        if self.on:
+            signal.setitimer(signal.ITIMER_REAL, 0)
+            signal.signal(signal.SIGALRM, self.old)
+        return False
+
+
 def run_impl(case):
     from pyiron_workflow import Workflow
     from pyiron_workflow.nodes import standard as std
@@ -696,15 +710,18 @@ def run_impl(case):
                     except AttributeError:
                         mready.append(True)
             try:
-                if step["k"] == "op":
-                    node = _apply(step, recv, others)
-                elif step["k"] == "slice":
-                    node = recv[slice(*others)]
-                else:
-                    node = SYNTAX[step["op"]](others[0], recv)
+                with _alarm(8):          # writing an operation must return
+                    if step["k"] == "op":
+                        node = _apply(step, recv, others)
+                    elif step["k"] == "slice":
+                        node = recv[slice(*others)]
+                    else:
+                        node = SYNTAX[step["op"]](others[0], recv)
                 exc = None
             except Exception as e:     # noqa: BLE001 -- every library/python exception is an observation
                 node, exc = None, e
+                if isinstance(e, hang):
+                    stopped = True       # whatever looped has littered the graph: the scenario ends here
             noms = []
             for nom, hashed in _NOM[mark:]:
                 c = _canon_nominal(nom, hmap)
@@ -827,8 +844,10 @@ def _reach_table(case):
 
     for i, s in enumerate(case["steps"]):
         own = {}
-        if _on_composite(case, s) and s["k"] == "op" and s["others"][0][0] == "raw":
-            t.call("childaccess", cands(s["others"][0]))
+        if _on_composite(case, s):
+            for r in (s["others"] if s["k"] == "op" else s["m"]):
+                if r[0] == "raw":
+                    t.call("childaccess", cands(r))
         if s["k"] == "op":
             fname = ENTRIES[s["e"]][3]
             lists = [cands(s["recv"])] + [cands(r) for r in s["others"]]
@@ -1247,6 +1266,10 @@ def analyse(case, obs):
         exp = ideal[i]
         if head[0] == "skip":
             continue
+        if head == ["raise", "hang"]:
+            out.append((i, "hang", f"hang: writing step {i} did not return within the time limit "
+                                   f"(the parent has {nch} children by then)"))
+            break
         if head[0] == "notanode":
             out.append((i, "not-a-node", f"not-a-node: step {i} evaluated to a {head[1]} instead of a node"))
             continue
